@@ -10,6 +10,10 @@ import time
 VERIF = os.path.dirname(os.path.dirname(os.path.abspath(__file__)))
 REPO = os.environ.get("VERIF_REPO", "/repo")
 CACHE = os.path.join(VERIF, ".cache")
+# nested runs of the sensitivity self-test analyse a scratch copy: they get their own fact cache and evidence directory so
+# that the facts and the evidence of the real tree are never overwritten
+CACHE_NS = os.environ.get("VERIF_CACHE_NS", "")
+EVIDENCE_DIR = os.environ.get("VERIF_EVIDENCE_DIR") or os.path.join(VERIF, "evidence")
 
 
 def repo_hash():
@@ -41,9 +45,9 @@ def repo_hash():
 def ensure_facts(config="default"):
     """Make sure .cache/facts/<config> holds facts extracted from /repo's *current* working tree."""
     os.makedirs(CACHE, exist_ok=True)
-    out = os.path.join(CACHE, "facts", config)
+    out = os.path.join(CACHE, "facts" + ("-" + CACHE_NS if CACHE_NS else ""), config)
     os.makedirs(out, exist_ok=True)
-    lock = open(os.path.join(CACHE, "facts-%s.lock" % config), "w")
+    lock = open(os.path.join(CACHE, "facts%s-%s.lock" % (CACHE_NS, config)), "w")
     fcntl.flock(lock, fcntl.LOCK_EX)
     try:
         want = repo_hash()
@@ -207,7 +211,7 @@ def finish(report, tier, t0, level="other", explanation="", extra_cov=None):
     for k in known_keys:
         if k not in fired:
             print("note: listed finding no longer fires: %s" % k)
-    replay_dir = os.path.join(VERIF, "evidence", "replay", pid)
+    replay_dir = os.path.join(EVIDENCE_DIR, "replay", pid)
     rc = 0
     if new:
         os.makedirs(replay_dir, exist_ok=True)
@@ -255,10 +259,10 @@ def finish(report, tier, t0, level="other", explanation="", extra_cov=None):
         "wall_s": round(time.time() - t0, 2),
         "violations": len(new),
     }
-    os.makedirs(os.path.join(VERIF, "evidence"), exist_ok=True)
-    tmp = os.path.join(VERIF, "evidence", ".%s.json.tmp%d" % (pid, os.getpid()))
+    os.makedirs(EVIDENCE_DIR, exist_ok=True)
+    tmp = os.path.join(EVIDENCE_DIR, ".%s.json.tmp%d" % (pid, os.getpid()))
     json.dump(ev, open(tmp, "w"), indent=1)
-    os.replace(tmp, os.path.join(VERIF, "evidence", "%s.json" % pid))
+    os.replace(tmp, os.path.join(EVIDENCE_DIR, "%s.json" % pid))
     print("%s: %d rule instances, %d discharged, %d known finding(s), %d new violation(s), %d functions, %.1fs"
           % (pid, report.obligations, report.discharged, len(listed), len(new), len(report.functions),
              time.time() - t0))
